@@ -122,9 +122,10 @@ def open_modes(path: Path) -> list[tuple[str, str, str]]:
                 mode = "default"
                 for kw in child.keywords:
                     if kw.arg == "mode":
-                        if not (isinstance(kw.value, ast.Constant) and isinstance(kw.value.value, str)):
-                            raise ValueError(f"{path.name}:{child.lineno}: zarr open mode is not a string literal")
-                        mode = kw.value.value
+                        if isinstance(kw.value, ast.Constant) and isinstance(kw.value.value, str):
+                            mode = kw.value.value
+                        else:
+                            mode = "expr:" + ast.unparse(kw.value)  # never equal to "r": such a call must be on the allow-list
                 out.append((fn, child.func.attr, mode))
             visit(child, name)
 
@@ -275,6 +276,15 @@ def gen_consts() -> str:
             rs.append((f"_schema.py:{fn}", callee, mode))
     if not any(f.endswith("GeffMetadata.read") for f, _, _ in rs) or not any("open_storelike" in f for f, _, _ in rs):
         raise ValueError("read-side open calls not found where expected")
+    # EVERY zarr open of the two packages (fail-closed: a new helper that opens a store shows up here)
+    allo = []
+    for base in (SRC, SPEC):
+        for path in sorted(base.rglob("*.py")):
+            rel = str(path.relative_to(base.parent))
+            for fn, callee, mode in open_modes(path):
+                allo.append((f"{rel}:{fn}", callee, mode))
+    lines.append("Definition all_opens : list (string * string * string) := [" +
+                 "; ".join(f"({cstr(f)}, {cstr(c)}, {cstr(m)})" for f, c, m in allo) + "].")
     lines.append("Definition read_side_opens : list (string * string * string) := [" +
                  "; ".join(f"({cstr(f)}, {cstr(c)}, {cstr(m)})" for f, c, m in rs) + "].")
     lines.append("")
